@@ -13,11 +13,14 @@ import (
 	"fmt"
 	"io"
 	"math/big"
+	"os"
+	"path/filepath"
 	"runtime/debug"
 	"runtime/pprof"
 	"sort"
 	"strings"
 	"sync"
+	"sync/atomic"
 	"time"
 
 	"github.com/dominant-strategies/go-quai/common"
@@ -27,6 +30,7 @@ import (
 	"github.com/dominant-strategies/go-quai/core/state"
 	"github.com/dominant-strategies/go-quai/core/types"
 	"github.com/dominant-strategies/go-quai/crypto"
+	"github.com/dominant-strategies/go-quai/ethdb"
 	"github.com/dominant-strategies/go-quai/event"
 	"github.com/dominant-strategies/go-quai/log"
 	"github.com/dominant-strategies/go-quai/params"
@@ -410,6 +414,10 @@ type env struct {
 	chain    *stubChain
 	pool     *core.TxPool
 	hook     *logHook
+	cfg      core.TxPoolConfig
+	db       ethdb.Database
+	logger   *log.Logger
+	tmp      string
 	feedMode bool // head events through the chain-head feed (pool.loop) instead of VerifSyncReset(old,new)
 	deadline time.Duration
 	hung     bool
@@ -430,7 +438,15 @@ var poolCfg = func() core.TxPoolConfig {
 	return cfg
 }()
 
-func newEnv(feedMode bool) *env {
+// sawHang is set once a pool call missed its deadline in this process: later cases (rapid's
+// shrinking re-runs of a deadlocking case) then use a short deadline.
+var sawHang atomic.Bool
+
+func newEnv(feedMode bool) *env { return newEnvJ(feedMode, false) }
+
+// newEnvJ: with journal the pool journals local transactions to a temp file (and can be restarted
+// from it).
+func newEnvJ(feedMode, journal bool) *env {
 	u := getUniverse()
 	l := logrus.New()
 	l.SetOutput(io.Discard)
@@ -449,11 +465,33 @@ func newEnv(feedMode bool) *env {
 	ch.qi = newQiWorld(db, ch.head)
 	e := &env{u: u, chain: ch, hook: hook, feedMode: feedMode, deadline: 30 * time.Second}
 	e.excludeGap = stats.IsKnown(FPReorgGap)
-	e.pool = core.NewTxPool(poolCfg, chainCfg, ch, l, db)
+	if sawHang.Load() {
+		e.deadline = 5 * time.Second
+	}
+	e.cfg = poolCfg
+	if journal {
+		dir, err := os.MkdirTemp("", "c19-journal")
+		if err != nil {
+			panic("HARNESS: " + err.Error())
+		}
+		e.tmp = dir
+		e.cfg.Journal = filepath.Join(dir, "transactions.rlp")
+	}
+	e.db, e.logger = db, l
+	e.pool = core.NewTxPool(e.cfg, chainCfg, ch, l, db)
 	return e
 }
 
+// restart stops the pool and starts a new one over the same chain, database and journal.
+func (e *env) restart() {
+	e.pool.Stop()
+	e.pool = core.NewTxPool(e.cfg, chainCfg, e.chain, e.logger, e.db)
+}
+
 func (e *env) close() {
+	if e.tmp != "" {
+		defer os.RemoveAll(e.tmp)
+	}
 	if e.hung {
 		return // Stop would block forever
 	}
@@ -497,6 +535,7 @@ func (e *env) call(fn func()) callResult {
 		return res
 	case <-timer.C:
 		e.hung = true
+		sawHang.Store(true)
 		return callResult{hang: true, dump: goroutineDump()}
 	}
 }
@@ -603,6 +642,8 @@ func (o op) String() string {
 		return fmt.Sprintf("%s(%d)", o.K, o.Qi)
 	case "read":
 		return fmt.Sprintf("read(%d)", o.Read)
+	case "restart":
+		return "restart"
 	}
 	var s []string
 	for _, r := range o.Txs {
@@ -659,6 +700,8 @@ func (e *env) apply(o op) opResult {
 		r.cr = e.call(func() { e.pool.AsyncRemoveQiTxs([]*common.Hash{&h}) })
 	case "read":
 		r.cr = e.call(func() { e.read(o.Read) })
+	case "restart":
+		r.cr = e.call(func() { e.restart() })
 	default:
 		panic("HARNESS: unknown op " + o.K)
 	}
